@@ -152,6 +152,8 @@ def known_match(prop, f: Finding, known):
 
 
 def write_evidence(prop, tier, seed, ctx: Ctx | None, wall, n_viol, known_hits, error=None, selftest=None):
+    if os.environ.get("DROPSTAT_NO_EVIDENCE"):
+        return None
     os.makedirs(os.path.join(VERIF, "evidence"), exist_ok=True)
     path = os.path.join(VERIF, "evidence", f"{prop}.json")
     cov: dict = {}
@@ -214,7 +216,7 @@ def write_evidence(prop, tier, seed, ctx: Ctx | None, wall, n_viol, known_hits, 
 
 
 def write_replay(prop, idx, f: Finding, root):
-    d = os.path.join(VERIF, "out", prop)
+    d = os.path.join(VERIF, "out", prop if not os.environ.get("DROPSTAT_NO_EVIDENCE") else "scratch-" + prop)
     os.makedirs(d, exist_ok=True)
     path = os.path.join(d, f"violation_{idx}.json")
     with open(path, "w", encoding="utf-8") as fh:
